@@ -237,4 +237,40 @@ theorem lanczos_exact {g : Graph ℚ} (hg : g.Nonneg) (hr : g.InRange) {a : ℚ}
   have : |s| ≠ 0 := abs_ne_zero.mpr hs
   field_simp
 
+/-- ★ `lanczos_residual` : a vector of sum 1 that the (repaired) operator moves by at most `r` (ℓ1) is within `r/(1−a)` of the
+    PageRank vector — the accuracy of `solver='lanczos'` from the residual of what ARPACK returned -/
+theorem lanczos_residual {g : Graph ℚ} (hg : g.Nonneg) (hr : g.InRange) {a : ℚ} (ha : 0 ≤ a) (ha1 : a < 1)
+    (y : List ℚ) (hy0 : ∀ i, 0 ≤ vec y i) (hy1 : ∑ i ∈ range g.n, vec y i = 1)
+    {π : ℕ → ℚ} {c : ℚ} (hπ : IsPR g.n (trans g) a (vec y) π c) (x : List ℚ)
+    (hx1 : ∑ i ∈ range g.n, vec x i = 1) (r : ℚ)
+    (hres : ∑ i ∈ range g.n, |(surferStep g a y x).getD i 0 - x.getD i 0| ≤ r) :
+    ∑ i ∈ range g.n, |x.getD i 0 - π i| ≤ r / (1 - a) := by
+  have hmove : l1 g.n (fun i => vec x i - stepF g a (vec y) (vec x) i) ≤ r := by
+    unfold l1
+    refine le_trans (le_of_eq ?_) hres
+    apply sum_congr rfl; intro i hi
+    rw [surferStep_getD hg a y x i (mem_range.mp hi), abs_sub_comm]; rfl
+  exact close_of_small_move hg hr ha ha1 hy0 hy1 hπ hx1 hmove
+
+/-- what `get_values` makes of a dict: the value of the last item with key `i`, the default elsewhere; an empty dict and a
+    key `≥ n` are refused (ValueError, IndexError) -/
+theorem getValues_dict (n : ℕ) (d : ℚ) (kv : List (ℕ × ℚ)) (v : List ℚ) (h : getValues n d (.dict kv) = .ok v) :
+    kv ≠ [] ∧ (∀ p ∈ kv, p.1 < n) ∧ v.length = n ∧
+    ∀ i, i < n → v.getD i 0 = match kv.reverse.find? (fun p => p.1 == i) with
+                              | some p => p.2
+                              | none => d := by
+  unfold getValues at h
+  by_cases he : kv.isEmpty
+  · simp [he] at h
+  · simp only [he, Bool.false_eq_true, if_false] at h
+    by_cases hk : kv.all (fun p => decide (p.1 < n))
+    · simp only [hk, if_true] at h
+      cases h
+      refine ⟨fun e => he (by simp [e]), fun p hp => ?_, by simp, fun i hi => by
+        rw [tab_getD, if_pos hi]
+        cases kv.reverse.find? (fun p => p.1 == i) <;> rfl⟩
+      have := List.all_eq_true.mp hk p hp
+      simpa using this
+    · simp [hk] at h
+
 end SkNet.Rank
